@@ -11,17 +11,24 @@ from concurrent.futures import ThreadPoolExecutor
 from .. import core
 
 ID = "C11"
-MODULE = "DrandProofs.C11"
+MODULE = "DrandProofs.C11R"   # imports DrandProofs.C11 (the stream machine) and DrandProofs.C12R (the repaired callbackStore)
 DEPENDS = ["C18", "C02"]  # base store = sorted map, store stack = atomic appends: re-checked with this property (check, P5b)
 THEOREMS = ["Drand.Beacon.Stream." + t for t in [
     "tie_syncchain_calls", "tie_syncchain_guards", "tie_dispatch_lossless",
     "c11_scan_exact", "c11_scan_out_stored", "drop_seekIdx", "c11_live_fifo", "c11_no_repeat", "c11_sent_stored", "c11_exact_partial",
     "c11_gap_counterexample", "c11_gap_counterexample_after_scan", "c11_memdb_shift_counterexample", "c11_memdb_evicted_counterexample",
     "c11_detach_counterexample", "c11_exact_tracked", "frm_step", "c11_net_projection", "c11_concurrent_puts_one_event",
-]]
+    # with a store that ends a stream whose queue is full instead of waiting for it (reports/cb_fix_1.diff)
+    "tie_stream_registration", "onPutR_is_events", "runR_is_run", "c11r_scan_exact", "c11_live_no_skip_or_ended", "c11_ended_is_final",
+    "c11_resume_after_end",
+    # a stream handler that deregisters only its own registration (reports/cb_fix_2.diff)
+    "tie_own_remover", "c11_own_end_keeps_others", "c11_detach_repaired",
+]] + ["Drand.Chain.Callback." + t for t in [
+    "tie_callback_variant", "c11_dispatch_reaches_or_ends", "c11_never_dropped", "c11_closed_is_last", "c11_table_frozen_during_put"]]
 TRUSTED = ["Lean 4 kernel; axioms per theorem under coverage.axioms",
            "modelled, not verified: goroutine scheduling (every interleaving of the listed steps is a schedule), Go channels (FIFO), bbolt read transactions (a snapshot), memdb cursor (position into the live slice; C18 correspondence)",
-           "go2lean facts Gen.syncChainCalls / syncChainGuards / syncChainScanLoop (order of Last, Cursor/Seek/Next, AddCallback in SyncChain) and Gen.callbackPutDispatchBlocking (callbackStore.Put hands the beacon to every callback with a plain channel send: it may wait, it never skips)",
+           "go2lean facts Gen.syncChainCalls / syncChainGuards / syncChainScanLoop (order of Last, Cursor/Seek/Next, AddCallback in SyncChain) and Gen.callbackPutDispatchBlocking / callbackOverflowEndsConsumer (callbackStore.Put hands the beacon to every callback with a plain channel send — it may wait, it never skips — or, repaired store, with a select whose default branch ENDS the consumer; any other shape is refused by go2lean)",
+           "Strm.queue holds the job the worker has in its hands as well as the jobs in the channel: the channel (CallbackWorkerQueue) is full when the queue holds CallbackWorkerQueue + 1 jobs; the engine's burst op waits for the worker to have taken the first job before it goes on",
            "harness engine 'stream': gating store wrapper + gating SyncStream around the real SyncChain; absence of a further Send is decided by (job channel empty ∧ no callback running ∧ no Send pending), re-read after 1 ms",
            "bolt files are pre-grown by the harness so that a Put issued while a cursor transaction is open does not wait for an mmap resize (that stall is C12's finding, not C11's)"]
 ASSUMPTIONS = ["store appends are chain-legal (round = head+1): C02", "a gRPC Send that returned nil was delivered in order (HTTP/2 stream ordering)"]
@@ -33,6 +40,7 @@ SIG_SHIFT = "syncchain:memdb-cursor-shift-on-full-ring"
 SIG_DETACH = "syncchain:stale-removecallback-detaches-replacement"
 SIG_EVICTED = "syncchain:memdb-seek-misses-evicted-start-round"
 H = lambda: os.path.join(core.BUILD, "verifh")
+CAP = 100   # CallbackWorkerQueue; checked against the regenerated constant in explore()
 
 
 # ----------------------------------------------------------------------------------------------- scenarios
@@ -102,9 +110,17 @@ def scripted_scenarios(backend):
 
 def burst_scenarios(backend, tier):
     """a live stream whose client stops reading while more beacons are appended than the per-callback job queue
-    (CallbackWorkerQueue = 100) holds, then reads again: every round must still arrive, in order"""
+    (CallbackWorkerQueue = 100) holds, then reads again: every round must still arrive, in order — or the stream is ended
+    (gap-free prefix, then ErrCallbackReplaced, then nothing) and a client that asks again from the next round gets the rest"""
     n0 = n0_of(backend)
     S = []
+    # overflow, then the client resumes from the round after the last one a store that ends slow streams lets through
+    # (on a store that waits instead, b is simply a second stream from that round)
+    first = n0 + 2
+    resume = first + CAP + 1
+    S.append({"name": "overflow-resume", "ops": [f"init 1 {n0}", "start a 8.8.8.8:1001 0 sync", "begin a", "register a", "put", "deliver a",
+                                                 f"burst a {CAP + 6}", "drain a", f"start b 8.8.8.8:1002 {resume} sync", "begin b", "scanall b", "register b"]
+              + epilogue(["a", "b"])})
     for frm, lead, n in ((0, 1, 104), (1, 0, 130)) + (((max(2, n0 // 2 + 1), 2, 250),) if tier != "quick" else ()):
         ops = [f"init 1 {n0}", f"start a 8.8.8.8:1001 {frm} sync", "begin a", "scanall a", "register a"]
         ops += ["put", "deliver a"] * lead + [f"burst a {n}"]
@@ -201,6 +217,9 @@ class Str:
         self.reg_order = None
         self.end_order = None
         self.drained = False
+        self.live_puts = 0        # beacons dispatched to this stream's callback (appends while it was live and registered)
+        self.live_sent = 0        # Sends of the live phase the client has taken
+        self.overflow_at = None   # first append that found CallbackWorkerQueue jobs queued behind the one in the worker's hands
 
 
 def parse_tokens(out):
@@ -259,6 +278,7 @@ def analyze(backend, ops, outs):
                 for s in streams.values():
                     s.puts.append((r, s.phase, full, order))
                     s.drained = False
+                    note_dispatch(s, r)
             head += n
             f, out = ["drain", f[1]], rest
         if f[0] == "init":
@@ -274,6 +294,7 @@ def analyze(backend, ops, outs):
             for s in streams.values():
                 s.puts.append((r, s.phase, full, order))
                 s.drained = False
+                note_dispatch(s, r)
         elif f[0] == "start":
             streams[f[1]] = Str(f[1], f[2], int(f[3]), f[4])
         elif f[0] == "get":
@@ -302,6 +323,8 @@ def analyze(backend, ops, outs):
                 if kind == "send":
                     if s.phase in ("started", "scanning"):
                         s.phase = "scanning"
+                    if s.phase == "live":
+                        s.live_sent += 1
                     s.sends.append(val)
                     s.flags += extra
                 elif kind == "started":
@@ -334,6 +357,22 @@ def analyze(backend, ops, outs):
     return problems
 
 
+def rounds_of(s):
+    return [x[0] for x in s.sends]
+
+
+def note_dispatch(s, r):
+    """an append while stream s is live and (as far as the script knows) registered: one more job for its callback — unless
+    CallbackWorkerQueue jobs are already queued behind the one its worker holds: a store that does not wait ends the stream there"""
+    if s.phase != "live" or s.script_end is not None:
+        return
+    if s.live_puts - s.live_sent >= CAP + 1:
+        if s.overflow_at is None:
+            s.overflow_at = r
+        return
+    s.live_puts += 1
+
+
 def judge(backend, s, streams, head, stored):
     mem = backend.startswith("mem")
     P = []
@@ -342,10 +381,14 @@ def judge(backend, s, streams, head, stored):
         P.append(("violation", None, f"{tag}: packet check failed: {sorted(set(s.flags))}"))
     if not s.refusal_ok:
         P.append(("violation", None, f"{tag}: wrong refusal decision at head {s.head_at_begin}"))
-    if s.end is not None and s.script_end is None and s.end != "no-beacon":
+    overflow_end = s.end == "replaced" and s.script_end is None and s.overflow_at is not None
+    if s.end is not None and s.script_end is None and s.end != "no-beacon" and not overflow_end:
         P.append(("violation", None, f"{tag}: SyncChain returned '{s.end}' although the script did nothing to end it"))
-    if s.end == "replaced" and s.script_end != "replaced":
-        P.append(("violation", None, f"{tag}: got the close signal without a newer registration under its address"))
+    if s.end == "replaced" and s.script_end != "replaced" and not overflow_end:
+        P.append(("violation", None, f"{tag}: got the close signal without a newer registration under its address and without its job queue being full"))
+    if overflow_end and rounds_of(s) and rounds_of(s)[-1] != s.overflow_at - 1:
+        # ended because its queue was full at the append of round overflow_at: everything before that round was queued and is owed
+        P.append(("violation", None, f"{tag}: ended by the store when round {s.overflow_at} found its queue full, but the last round it was given is {rounds_of(s)[-1]}, not {s.overflow_at - 1}"))
     rounds = [x[0] for x in s.sends]
     for a, b in zip(rounds, rounds[1:]):
         if b <= a:
@@ -501,6 +544,10 @@ def race_section(ctx, res, tier):
 def explore(ctx, res):
     rng = ctx["rng"]
     tier = "thorough" if ctx["deep"] else ctx["tier"]
+    from . import C12
+    facts = C12.gen_facts()
+    if facts["cap"] != CAP:
+        raise core.Broken("C11:queue-constant", f"CallbackWorkerQueue is {facts['cap']}, the overflow scenarios were written for {CAP}")
     if ctx.get("replay"):
         return replay(ctx, res)
     if race_section(ctx, res, tier):
@@ -594,6 +641,16 @@ def explore(ctx, res):
                                    "note": "the implementation's transcript equals neither the as-is model nor the corrected (tracked) model; the C11 oracle itself accepts it or explains it by a listed circumstance"},
                                   found=False)
                 return finish(res, total, nontriv, dist, samples, validated, tracked_matches)
+            if sc["name"] == "overflow-resume":
+                # observed, not assumed: does this tree's store end a stream whose queue is full?
+                ended = any("returned replaced" in o for op, o in zip(ops, impl) if op.startswith("burst "))
+                dist["outcomes"]["overflow:" + ("stream-ended" if ended else "store-waited")] = dist["outcomes"].get("overflow:" + ("stream-ended" if ended else "store-waited"), 0) + 1
+                if ended != facts["ends"]:
+                    res.add_violation({"engine": "stream", "backend": backend, "kind": "model-impl-diverge", "scenario": sc["name"], "ops": ops[:8],
+                                       "observed": [o[:80] for o in impl[:8]],
+                                       "note": f"go2lean says callbackStore.Put {'ends' if facts['ends'] else 'waits for'} a stream consumer whose queue is full; the stream was {'ended' if ended else 'not ended'}"},
+                                      found=False)
+                    return finish(res, total, nontriv, dist, samples, validated, tracked_matches)
             if sc.get("expect") and not any(d[1] == sc["expect"] for d in devs):
                 dist["deviations"]["witness-no-longer-fails:" + sc["expect"]] = 1
             if len(samples) < 6 and sc["name"].startswith(("place", "reconnect", "two")) and (devs or len(samples) < 3):
